@@ -57,8 +57,19 @@ func init() {
 var c11FieldPool = []string{"f", "g", "h", "http.status_code", "root.svc", "root.f", "root.g", "roo", "é", "root.", "a,b"}
 var c11StrPool = []string{"", "", "a", "b", "ab", "A", "a•", "x,y", "•", ",", "é", "200", "true", "<nil>", "1.5", "z"}
 
+// long values (65-300 bytes) that share a prefix of 64 bytes or more: duplicate detection must look
+// at the whole value, not at a prefix of it
+var c11LongPool = []string{
+	strings.Repeat("x", 64), strings.Repeat("x", 64) + "a", strings.Repeat("x", 64) + "b", strings.Repeat("x", 65),
+	strings.Repeat("/api/v1/resource", 6) + "/1", strings.Repeat("/api/v1/resource", 6) + "/2",
+	strings.Repeat("y", 200) + "left", strings.Repeat("y", 200) + "right", strings.Repeat("z", 299) + "1", strings.Repeat("z", 299) + "2",
+	strings.Repeat("é", 40) + "1", strings.Repeat("é", 40) + "2",
+}
+
 func c11RandVal(r *rand.Rand) c11Val {
 	switch x := r.Intn(100); {
+	case x < 14:
+		return c11Val{T: "s", S: c11LongPool[r.Intn(len(c11LongPool))]}
 	case x < 55:
 		return c11Val{T: "s", S: c11StrPool[r.Intn(len(c11StrPool))]}
 	case x < 70:
